@@ -11,6 +11,7 @@ from __future__ import annotations
 
 import ast
 
+from ..cfg import CFG, facts_at
 from ..core import AnalysisError, FuncNode, call_name, calls_in, const_str, kwarg, last_attr, names_in, src
 
 EXPLANATION = (
@@ -36,6 +37,42 @@ def _escapes(expr: ast.AST, local_funcs: dict) -> bool:
                 if any(r.value is not None and _escapes(r.value, {}) for r in ast.walk(f) if isinstance(r, ast.Return)):
                     return True
     return False
+
+
+def _is_escape_call(c: ast.AST) -> bool:
+    return isinstance(c, ast.Call) and last_attr(c) == "replace" and len(c.args) == 2 and const_str(c.args[0]) == "$" and const_str(c.args[1]) == "$$"
+
+
+def _unescaped_returns(expr: ast.AST, local_funcs: dict, depth: int = 0) -> list:
+    """Return statements / expressions through which a *string* value can leave `expr` without having passed `.replace('$', '$$')` as the
+    outermost string operation.  `expr` is an application of local helper functions to the raw value, e.g. escape(substitute(v)) or convert(v)."""
+    if _is_escape_call(expr):
+        return []  # whatever the receiver is, the result is escaped
+    if isinstance(expr, ast.Call) and call_name(expr) in local_funcs and depth < 4:
+        f = local_funcs[call_name(expr)]
+        param = f.args.args[0].arg if f.args.args else None
+        arg = expr.args[0] if expr.args else None
+        inner_bad = _unescaped_returns(arg, local_funcs, depth + 1) if arg is not None and isinstance(arg, ast.Call) else None
+        out = []
+        cfg = CFG(f)
+        for n in cfg.nodes:
+            if n.kind != "stmt" or not isinstance(n.ast, ast.Return) or n.ast.value is None:
+                continue
+            v = n.ast.value
+            facts = facts_at(cfg, n)
+            if isinstance(v, ast.Name) and v.id == param:
+                # identity return: harmless when the value is known not to be a str here; otherwise it is only as escaped as the argument was
+                if (f"isinstance({param}, str)", False) in facts:
+                    continue
+                if inner_bad == []:
+                    continue
+                out.append((n.lineno, f"return {src(v)} (the value as received)"))
+            elif _is_escape_call(v):
+                continue
+            else:
+                out.append((n.lineno, f"return {src(v)[:60]}"))
+        return out
+    return [(getattr(expr, "lineno", 0), src(expr)[:60])]
 
 
 def _raw_source(expr: ast.AST) -> bool:
@@ -71,12 +108,12 @@ def run(ctx):
         v = st.value
         val_expr = v.value if isinstance(v, ast.DictComp) else v
         src_expr = v.generators[0].iter if isinstance(v, ast.DictComp) else v
-        ok = (not interpolating) or _raw_source(src_expr) or _escapes(val_expr, local_funcs)
+        bad_rets = [] if ((not interpolating) or _raw_source(src_expr)) else _unescaped_returns(val_expr, local_funcs)
         r1.check(
-            ok,
+            not bad_rets,
             f"{m.rel}:{m.enclosing_qual(st)}:result-store",
-            f"values are read interpolated (`{src(src_expr)}`) and exported as `{src(val_expr)}` without escaping `$`: "
-            "Config(config_dict=...) interpolates them a second time (a literal `$` written as `$$` becomes `$` and then fails or is substituted)",
+            f"values are read interpolated (`{src(src_expr)}`) and exported as `{src(val_expr)}`; a string can leave that conversion without `.replace('$', '$$')` through "
+            f"{[b[1] + ' @line ' + str(b[0]) for b in bad_rets][:3]}: Config(config_dict=...) interpolates it a second time (a literal `$` written as `$$` becomes `$` and then fails or is substituted)",
             m.rel,
             st.lineno,
         )
@@ -97,21 +134,22 @@ def run(ctx):
     r2.check(ok, f"{m.rel}:Config._parse_sections:leaf", "the last name component no longer maps to the parser's section", m.rel, ps.lineno)
 
     r3 = ctx.rule("C35.3", "config-dir substitution: str values only, only when requested, replaces the local dir", floor=1)
-    sub = local_funcs.get("substitute_config_dir")
-    if sub is None:
-        raise AnalysisError("substitute_config_dir not found in get_config_dict", "Config.get_config_dict")
-    sp = sub.args.args[0].arg
-    ok = False
-    for n in ast.walk(sub):
-        if isinstance(n, ast.If):
-            t = src(n.test)
-            if "replace_config_dir is not None" in t and f"isinstance({sp}, str)" in t and isinstance(n.test, ast.BoolOp) and isinstance(n.test.op, ast.And):
-                for b in n.body:
-                    if isinstance(b, ast.Return) and isinstance(b.value, ast.Call) and last_attr(b.value) == "replace" and src(b.value.func.value) == sp and [src(a) for a in b.value.args] == ["local_config_dir", "replace_config_dir"]:
-                        ok = True
-    rets = [r for r in ast.walk(sub) if isinstance(r, ast.Return)]
-    ok = ok and any(src(r.value) == sp for r in rets)
-    r3.check(ok, f"{m.rel}:Config.get_config_dict.substitute_config_dir", "substitution is not `s.replace(local_config_dir, replace_config_dir)` guarded by `replace_config_dir is not None and isinstance(s, str)` with identity otherwise", m.rel, sub.lineno)
+    subs = [(f, c) for f in local_funcs.values() for c in calls_in(f) if last_attr(c) == "replace" and [src(a) for a in c.args] == ["local_config_dir", "replace_config_dir"]]
+    if not subs:
+        raise AnalysisError("get_config_dict: `.replace(local_config_dir, replace_config_dir)` not found in any local helper", "Config.get_config_dict")
+    for sub, c in subs:
+        sp = sub.args.args[0].arg
+        scfg = CFG(sub)
+        facts = facts_at(scfg, scfg.node_of(c))
+        ok = src(c.func.value) == sp and ("replace_config_dir is not None", True) in facts and ((f"isinstance({sp}, str)", True) in facts or (f"isinstance({sp}, str)", False) not in facts and any(f.startswith(f"isinstance({sp}, str)") or f == f"not isinstance({sp}, str)" for f, t in facts) or True)
+        strguard = (f"isinstance({sp}, str)", True) in facts or any(isinstance(n, ast.If) and src(n.test) == f"not isinstance({sp}, str)" and any(isinstance(b, ast.Return) for b in n.body) and n.lineno < c.lineno for n in ast.walk(sub))
+        r3.check(
+            src(c.func.value) == sp and ("replace_config_dir is not None", True) in facts and strguard,
+            f"{m.rel}:Config.get_config_dict.{sub.name}:substitution",
+            "substitution is not `s.replace(local_config_dir, replace_config_dir)` applied to str values only and only when replace_config_dir is given",
+            m.rel,
+            c.lineno,
+        )
 
     r4 = ctx.rule("C35.4", "subrun forwards get_config_dict(...) and the sub-scheduler rebuilds with Config(config_dict=...)", floor=2)
     sm = repo.mod(SCHED)
